@@ -193,7 +193,12 @@ func (n *Number) ReduceFast(other *Number, fun AggregateFunctions) error {
 		}
 		switch fun {
 		case Sum:
-			n.SetInt64(ni + oi)
+			// a sum that does not fit an int64 becomes a float64, it must not wrap around
+			if sum, overflow := AddInt64(ni, oi); overflow {
+				n.SetFloat64(float64(ni) + float64(oi))
+			} else {
+				n.SetInt64(sum)
+			}
 		case Min:
 			n.SetInt64(min(ni, oi))
 		case Max:
